@@ -245,22 +245,26 @@ class Callable(Attrs):
 
     def __init__(self, name, ret=None, params=(), symbol=None, throws=False, deprecated=False,
                  instance=None, shadows=None, set_property=None, get_property=None, introspectable=True,
-                 attributes=(), moved_to=None, **extra):
+                 attributes=(), moved_to=None, shadowed_by=None, **extra):
+        self.shadowed_by = shadowed_by
         self.name, self.ret, self.params = name, ret if ret is not None else Ret(), list(params)
         self.symbol = symbol if symbol is not None else 'sym_' + name
         self.throws, self.deprecated, self.instance = throws, deprecated, instance
         self.shadows, self.set_property, self.get_property = shadows, set_property, get_property
-        self.introspectable = introspectable
+        self._intro_attr = introspectable
+        # a callable that is shadowed-by another one is replaced by it: it must not appear in the typelib
+        self.introspectable = introspectable and shadowed_by is None
         self.attributes = tuple(attributes)
         self.moved_to = moved_to
         self.extra = extra
 
     def head_attrs(self):
         return [('name', self.name), ('c:identifier', self.symbol), ('shadows', self.shadows),
+                ('shadowed-by', self.shadowed_by),
                 ('glib:set-property', self.set_property), ('glib:get-property', self.get_property),
                 ('throws', flag(self.throws)), ('deprecated', flag(self.deprecated)),
                 ('moved-to', self.moved_to),
-                ('introspectable', None if self.introspectable else '0')]
+                ('introspectable', None if self._intro_attr else '0')]
 
     def xml(self):
         ps = ''
